@@ -8,7 +8,7 @@ PROP = "C16"
 RULE = (
     "case = (shipped weight type, pool of 7-9 values: the type's zero and one constants, freshly constructed values equal "
     "to them, random values with exact rational scores where the type allows (Real, MaxPlus, MaxTimes, Entropy, "
-    "Expectation, Boolean), floats for Log and Float, -inf where it is in the domain); ALL triples of the pool are "
+    "Expectation, Boolean), floats for Log and Float incl. log-weights hundreds of units apart, -inf where it is in the domain); ALL triples of the pool are "
     "checked against associativity, commutativity, identities, annihilation, both distributive laws, commutativity of "
     "multiplication, and the star law star(x) = 1 + x star(x) = 1 + star(x) x wherever the geometric series converges. "
     "evaluations = law instances; exhaustive over each pool; a pool is non-trivial when it has >= 3 values that are neither "
@@ -50,7 +50,11 @@ def gen_case(rng, spec):
     elif t == "MaxTimes":
         pool = [["v", q(0, 12)] for _ in range(n)]
     elif t == "Log":
-        pool = [["v", float(q(-12, 4))] for _ in range(n)] + [["v", float("-inf")], ["v", math.log(0.5)], ["v", -rng.random() * 5]]
+        pool = [["v", float(q(-12, 4))] for _ in range(n - 1)] + [["v", float("-inf")], ["v", math.log(0.5)], ["v", -rng.random() * 5]]
+        # log-weights far apart (tiny probabilities next to ordinary ones): exp() of the gap must not overflow
+        pool += [["v", float(rng.choice([-700, -720, -745, -800, -1000, -1500]) - rng.random())]]
+        if rng.random() < 0.5:
+            pool += [["v", float(rng.choice([-300, -400, -710]))]]
     else:  # Entropy / Expectation: (p, r)
         pool = [["v", [q(0, 7, (8, 16)), q()]] for _ in range(n)]
     pool += [["const", "zero"], ["const", "one"], ["fresh", "zero"], ["fresh", "one"]]
